@@ -102,6 +102,20 @@ fn add(agg: &mut Agg, prop: &str, run_seed: u64, scen: &Scenario, r: &Report) {
     for (k, v) in &r.event_kinds { *agg.kinds.entry(k.clone()).or_default() += v; }
     *agg.sched_kinds.entry(format!("{:?}", scen.sched)).or_default() += 1;
     for v in &r.violations {
+        // Oracles are tagged with the property whose statement they come from. Some properties
+        // contain other properties' observations in their own statement ("roots, values, proofs
+        // and witness verdicts are identical ...", "exactly as if the chain had been committed",
+        // "as if the store had never been closed"): there a divergence found by the shared oracle
+        // is a violation of the property under check as well.
+        let absorbed: &[&str] = match prop {
+            "C13" => &["C01", "C02", "C05", "C06", "C07"],
+            "C11" | "C10" => &["C01", "C02", "C05"],
+            "C12" | "C09" => &["C01", "C02"],
+            _ => &[],
+        };
+        let mut v = v.clone();
+        if absorbed.contains(&v.property.as_str()) { v.class = format!("{}-{}", v.property, v.class); v.property = prop.to_string(); }
+        let v = &v;
         if v.property == "HARNESS" { agg.harness.push(format!("seed {run_seed}: {}", v.detail)); }
         else if v.property == prop { agg.violations.push((scen.clone(), v.clone())); }
         else { *agg.others.entry(format!("{}:{}", v.property, v.class)).or_default() += 1; }
@@ -280,7 +294,9 @@ pub fn check(prop: &str, tier: Tier, args: &[String]) -> i32 {
     exit
 }
 
-fn same(v: &Violation, r: &Report) -> bool { r.violations.iter().any(|x| x.property == v.property && x.class == v.class) }
+fn same(v: &Violation, r: &Report) -> bool {
+    r.violations.iter().any(|x| (x.property == v.property && x.class == v.class) || format!("{}-{}", x.property, x.class) == v.class)
+}
 
 fn try_scen(s: &Scenario, v: &Violation, extra_seeds: u64, timeout: Duration) -> Option<Scenario> {
     // the schedule is a function of the operations: after a structural change re-search a few seeds
@@ -365,7 +381,7 @@ fn write_replay(prop: &str, run_seed: u64, scen: &Scenario, v: &Violation, _tier
     let left = budget.saturating_sub(t0.elapsed());
     let deadline = Instant::now() + left.clamp(Duration::from_secs(45), Duration::from_secs(240));
     let (min, tried) = if confirm { minimise(scen, v, deadline) } else { (scen.clone(), 0) };
-    let final_v = match run_scenario_child(&min, "final", Duration::from_secs(300)) { ChildOut::Report(r) => r.violations.into_iter().find(|x| x.property == v.property && x.class == v.class).unwrap_or_else(|| v.clone()), _ => v.clone() };
+    let final_v = match run_scenario_child(&min, "final", Duration::from_secs(300)) { ChildOut::Report(r) => r.violations.into_iter().find(|x| (x.property == v.property && x.class == v.class) || format!("{}-{}", x.property, x.class) == v.class).map(|mut x| { x.property = v.property.clone(); x.class = v.class.clone(); x }).unwrap_or_else(|| v.clone()), _ => v.clone() };
     let dir = verif_root().join("replays");
     let _ = std::fs::create_dir_all(&dir);
     let path = dir.join(format!("{prop}-{run_seed}-{:04x}.json", shape_hash(scen) & 0xffff));
@@ -386,7 +402,7 @@ pub fn replay(file: &str) -> i32 {
     match run_scenario_child(&scen, "replay", Duration::from_secs(600)) {
         ChildOut::Report(r) => {
             for v in &r.violations { println!("  observed: property={} class={} step={:?} detail={}", v.property, v.class, v.step, v.detail); }
-            if r.violations.iter().any(|v| v.property == prop && v.class == class) {
+            if r.violations.iter().any(|v| (v.property == prop && v.class == class) || format!("{}-{}", v.property, v.class) == class) {
                 println!("VIOLATION property={prop} replay={}", Path::new(file).display());
                 1
             } else { println!("replay of {file}: the recorded violation ({prop}:{class}) did not occur"); 0 }
